@@ -347,6 +347,13 @@ func Forall(vars []*Term, body *Term) *Term {
 }
 func Exists(vars []*Term, body *Term) *Term { return mkQuant("exists", vars, body) }
 
+// mkQuantPat: universally quantified body with an explicit trigger.
+func mkQuantPat(vars []*Term, body, trig *Term) *Term {
+	ann := mk("!pat", SBool, body, trig)
+	ann.open = true
+	return mkQuant("forall", vars, ann)
+}
+
 // ---- substitution ----
 
 func Subst(t *Term, m map[*Term]*Term) *Term {
@@ -442,6 +449,14 @@ func printTerm(sb *strings.Builder, t *Term, names map[int]string) {
 	}
 	if len(t.Args) == 0 {
 		sb.WriteString(t.Head)
+		return
+	}
+	if t.Head == "!pat" {
+		sb.WriteString("(! ")
+		printTerm(sb, t.Args[0], names)
+		sb.WriteString(" :pattern (")
+		printTerm(sb, t.Args[1], names)
+		sb.WriteString("))")
 		return
 	}
 	sb.WriteString("(" + t.Head)
